@@ -691,6 +691,10 @@ impl SimHandler {
             let (obs, err) = do_pull(params, pull, was);
             dev.sim.calls[idx].pulls.push(obs);
             if let Some(e) = err {
+                if plan.swallow {
+                    // a tolerant handler: notes the problem and carries on
+                    continue;
+                }
                 dev.sim.calls[idx].ret = Some(obs_err(&e));
                 dev.sim.calls[idx].finished = true;
                 return Err(e);
@@ -708,6 +712,14 @@ impl SimHandler {
             for (k, d) in plan.data.iter().enumerate() {
                 alloc::library(was, || write_datum(resp, d));
                 dev.sim.calls[idx].data_written += 1;
+                if plan.finish_each {
+                    let r = alloc::library(was, || resp.finish());
+                    if let Err(e) = &r {
+                        dev.sim.calls[idx].ret = Some(obs_err(e));
+                        dev.sim.calls[idx].finished = true;
+                        return r;
+                    }
+                }
                 fail_if!(Phase::AfterDatum(k));
             }
             let r = alloc::library(was, || resp.finish());
@@ -805,9 +817,37 @@ unsafe impl Sync for SharedTree {}
 
 static TREE_CACHE: std::sync::Mutex<Option<std::collections::HashMap<u64, Vec<(TreeDesc, SharedTree)>>>> = std::sync::Mutex::new(None);
 
+/// A tree built entirely with the crate's own tree macros, including the
+/// `Branch![name => handler; children]` arm (executable branch) and default nodes.
+#[allow(unused_imports)]
+use scpi::{Branch, Leaf, Root};
+
+pub const MACRO_TREE: Node<'static, SimDevice> = scpi::Root![
+    scpi::Leaf![b"*MAC" => &SimHandler { id: 0 }],
+    scpi::Branch![b"CONFigure" => &SimHandler { id: 1 };
+        scpi::Leaf![b"VOLTage" => &SimHandler { id: 2 }],
+        scpi::Branch![default b"SCALar";
+            scpi::Leaf![default b"DC" => &SimHandler { id: 3 }],
+            scpi::Leaf![b"AC" => &SimHandler { id: 4 }]
+        ]
+    ],
+    scpi::Branch![b"TRIGger2" => &SimHandler { id: 5 };
+        scpi::Leaf![b"SOURce" => &SimHandler { id: 6 }],
+        scpi::Branch![b"SEQuence"; scpi::Leaf![b"LEVel" => &SimHandler { id: 7 }]]
+    ],
+    scpi::Branch![b"OUTPut";
+        scpi::Leaf![default b"STATe" => &SimHandler { id: 8 }],
+        scpi::Leaf![b"LEVel" => &SimHandler { id: 9 }]
+    ]
+];
+
 /// Build (and leak) the real command tree for a description; identical descriptions share one
 /// tree (bounded leak).
 pub fn build_tree(desc: &TreeDesc) -> &'static Node<'static, SimDevice> {
+    if desc.fixed.as_deref() == Some("macro") {
+        const T: &Node<'static, SimDevice> = &MACRO_TREE;
+        return T;
+    }
     let key = crate::rng::fnv1a(serde_json::to_string(desc).unwrap_or_default().as_bytes());
     let mut guard = TREE_CACHE.lock().unwrap();
     let map = guard.get_or_insert_with(std::collections::HashMap::new);
